@@ -27,23 +27,23 @@ Proof.
   rewrite <- Ba. exact G.
 Qed.
 
-Lemma sub_sound' w a b : wfw w a -> wfw w b -> aligned b ->
+Lemma sub_sound' w a b : wfw w a -> wfw w b -> proper b ->
   exists r, si_sub a b = Ok r /\ wfw w r /\ forall x y, gamma a x -> gamma b y -> gamma r ((x - y) mod 2 ^ w).
 Proof.
   intros [Wa Ba] [Wb Bb] Al.
-  destruct (sub_sound a b _ _ Wa Wb ltac:(congruence) Al (gamma_lb a Wa) (gamma_lb b Wb)) as (r & E & Wr & Br & _).
+  destruct (sub_sound_proper a b _ _ Wa Wb ltac:(congruence) Al (gamma_lb a Wa) (gamma_lb b Wb)) as (r & E & Wr & Br & _).
   exists r. split; [exact E|]. split; [split; congruence|]. intros x y Gx Gy.
-  destruct (sub_sound a b x y Wa Wb ltac:(congruence) Al Gx Gy) as (r' & E' & _ & _ & G). rewrite E in E'. inversion E'; subst r'.
+  destruct (sub_sound_proper a b x y Wa Wb ltac:(congruence) Al Gx Gy) as (r' & E' & _ & _ & G). rewrite E in E'. inversion E'; subst r'.
   rewrite <- Ba. exact G.
 Qed.
 
-Lemma neg_sound' w a : wfw w a -> aligned a ->
+Lemma neg_sound' w a : wfw w a -> proper a ->
   exists r, si_neg a = Ok r /\ wfw w r /\ forall y, gamma a y -> gamma r ((- y) mod 2 ^ w).
 Proof.
   intros [Wa Ba] Al.
-  destruct (neg_sound a _ Wa Al (gamma_lb a Wa)) as (r & E & Wr & Br & _).
+  destruct (neg_sound_proper a _ Wa Al (gamma_lb a Wa)) as (r & E & Wr & Br & _).
   exists r. split; [exact E|]. split; [split; congruence|]. intros y Gy.
-  destruct (neg_sound a y Wa Al Gy) as (r' & E' & _ & _ & G). rewrite E in E'. inversion E'; subst r'.
+  destruct (neg_sound_proper a y Wa Al Gy) as (r' & E' & _ & _ & G). rewrite E in E'. inversion E'; subst r'.
   rewrite <- Ba. exact G.
 Qed.
 
@@ -55,19 +55,19 @@ Proof.
   apply (lift2_sound si (wfw w) gamma si_add (fun x y => (x + y) mod 2 ^ w) (fun _ _ => True) (add_sound' w)); auto.
 Qed.
 
-Theorem dsis_sub_sound w s t : Forall (wfw w) s -> Forall (wfw w) t -> Forall aligned t ->
+Theorem dsis_sub_sound w s t : Forall (wfw w) s -> Forall (wfw w) t -> Forall proper t ->
   exists r, dsis_sub s t = Ok r /\ Forall (wfw w) r /\
     forall x y, gset si gamma s x -> gset si gamma t y -> gset si gamma r ((x - y) mod 2 ^ w).
 Proof.
   intros Hs Ht Hal.
-  apply (lift2_sound si (wfw w) gamma si_sub (fun x y => (x - y) mod 2 ^ w) (fun _ b => aligned b) (sub_sound' w)); auto.
+  apply (lift2_sound si (wfw w) gamma si_sub (fun x y => (x - y) mod 2 ^ w) (fun _ b => proper b) (sub_sound' w)); auto.
   intros a b _ Hb. rewrite Forall_forall in Hal. auto.
 Qed.
 
-Theorem dsis_neg_sound w s : Forall (wfw w) s -> Forall aligned s ->
+Theorem dsis_neg_sound w s : Forall (wfw w) s -> Forall proper s ->
   exists r, dsis_neg s = Ok r /\ Forall (wfw w) r /\ forall y, gset si gamma s y -> gset si gamma r ((- y) mod 2 ^ w).
 Proof.
-  intros Hs Hal. apply (lift1_sound si (wfw w) gamma si_neg (fun y => (- y) mod 2 ^ w) aligned (neg_sound' w)); auto.
+  intros Hs Hal. apply (lift1_sound si (wfw w) gamma si_neg (fun y => (- y) mod 2 ^ w) proper (neg_sound' w)); auto.
 Qed.
 
 (* value set + region-less interval: every region separately *)
@@ -100,11 +100,9 @@ Qed.
 End VS.
 
 (* the hypotheses are satisfiable: a two-member set at width 3, and the lifted sum computes *)
-Example wfw_example : Forall (wfw 3) [mkSI 3 1 1 3 false; mkSI 3 2 0 6 false] /\ Forall aligned [mkSI 3 1 1 3 false; mkSI 3 2 0 6 false].
+Example wfw_example : Forall (wfw 3) [mkSI 3 1 1 3 false; mkSI 3 2 0 6 false] /\ Forall proper [mkSI 3 1 1 3 false; mkSI 3 2 0 6 false].
 Proof.
-  split; repeat constructor; cbn; unfold SHIFT_LIMIT; try lia.
-  - exists 2. cbn. lia.
-  - exists 3. cbn. lia.
+  split; repeat constructor; cbn; unfold SHIFT_LIMIT; try lia; intros H; cbn in H; discriminate H.
 Qed.
 Example dsis_add_example :
   dsis_add [mkSI 3 1 1 3 false; mkSI 3 2 0 6 false] [mkSI 3 0 1 1 false] = Ok [mkSI 3 1 2 4 false; mkSI 3 2 1 7 false].
